@@ -114,15 +114,15 @@ type Prop[S any] struct {
 
 type stats struct {
 	mu          sync.Mutex
-	Evaluations int64            `json:"evaluations"`
-	NonTrivial  int64            `json:"nontrivial"`
-	Classes     map[string]int64 `json:"classes"`
-	Excluded    map[string]int64 `json:"excluded_known"`
-	Samples     []any            `json:"samples"`
+	Evaluations int64             `json:"evaluations"`
+	NonTrivial  int64             `json:"nontrivial"`
+	Classes     map[string]int64  `json:"classes"`
+	Excluded    map[string]int64  `json:"excluded_known"`
+	Samples     []any             `json:"samples"`
 	Rules       map[string]string `json:"rules"`
-	PerProp     map[string]int64 `json:"per_prop"`
-	Exhaustive  map[string]bool  `json:"exhaustive"`
-	Failures    []failure        `json:"failures"`
+	PerProp     map[string]int64  `json:"per_prop"`
+	Exhaustive  map[string]bool   `json:"exhaustive"`
+	Failures    []failure         `json:"failures"`
 	hashes      map[uint64]struct{}
 	hashCapHit  bool
 	sampleAt    map[string]int64
